@@ -76,7 +76,7 @@ class Report:
     def drift(self, what, detail=None):
         if len(self.cov['drift']) < 50:
             self.cov['drift'].append({'what': what, 'detail': detail})
-        print('DRIFT property=%s %s' % (self.pid, what))
+        print('DRIFT property=%s %s' % (self.pid, what), file=sys.__stdout__, flush=True)
 
     def violation(self, clause, sig, replay, what=None):
         """A property clause failed on an execution of the real code.
@@ -88,7 +88,7 @@ class Report:
                 k = f['id']
                 self.known[k] = self.known.get(k, 0) + 1
                 if self.known[k] == 1:
-                    print('KNOWN-FINDING: property=%s %s [%s]' % (self.pid, f['what'], k))
+                    print('KNOWN-FINDING: property=%s %s [%s]' % (self.pid, f['what'], k), file=sys.__stdout__, flush=True)
                 return 'known'
         key = hashlib.sha1(json.dumps(sig, sort_keys=True, default=str).encode()).hexdigest()[:12]
         if key in self._seen_viol:
@@ -102,7 +102,8 @@ class Report:
             json.dump({'property': self.pid, 'clause': clause, 'signature': sig, 'what': what, 'replay': replay},
                       f, indent=1, default=str)
         if self.violations <= 25:
-            print('VIOLATION property=%s replay=%s clause=%s %s' % (self.pid, path, clause, what or ''))
+            # written to the real stdout: drivers may report from inside a block that silences the library's prints
+            print('VIOLATION property=%s replay=%s clause=%s %s' % (self.pid, path, clause, what or ''), file=sys.__stdout__, flush=True)
         return 'violation'
 
     def finish(self):
